@@ -1036,6 +1036,21 @@ def check(scenario, w, st, res):
                 (o.r.ret or 10**12) > r.r.inv]
         if conc:
             continue
+        # ... and the newest session opened before this call is one that was
+        # already up when this thread reported its error (so it is this
+        # thread's own, or one that has ended since): a status()/connect()
+        # that another thread slipped in after the error is a live session
+        # and a legitimate reason to refuse
+        mine = [e for e in st['errs'] if e[3] == r.tid and e[0] < r.r.inv]
+        opened = [o for o in mutating if o is not r and
+                  o.op in ('connect', 'status') and o.r.inv < r.r.inv and
+                  not (not o.r.ok and
+                       type(o.r.exc).__name__ == 'InvalidState')]
+        if not mine or not opened:
+            continue
+        newest = max(opened, key=lambda o: o.r.inv)
+        if newest.r.ret is None or newest.r.ret > mine[-1][0]:
+            continue
         ob()
         res.probes['handler-reconnect-admission-checked'] = \
             res.probes.get('handler-reconnect-admission-checked', 0) + 1
